@@ -89,7 +89,10 @@ DriverOps == {"min_constraints", "min_generators", "constraints", "generators", 
 ShapeDrivers == {"min_constraints", "constraints", "add_constraint", "refine_with_constraint", "is_empty", "contains", "equals", "refine_with_constraints", "is_universe"}
 \* minimized_constraints() is the call that moves a weakly relational element into its reduced internal state: it is drawn half of the time
 PsetDrivers == {"add_disjunct", "add_disjunct", "add_disjunct_gs", "omega_reduce", "pairwise_reduce", "size", "is_empty", "contains", "geometrically_covers", "copy_from", "add_constraint"}
-ShapeDriver(ok) == IF Pset THEN RE(PsetDrivers) ELSE IF RE(1..2) = 1 /\ "min_constraints" \in ok THEN "min_constraints" ELSE RE(ok)
+\* products (Shape = "prod"): the drivers feed both components, proper congruences included, and read them back (reading reduces)
+ProdDrivers == {"refine_with_congruence", "refine_with_congruence", "refine_with_congruences", "refine_with_constraint", "add_constraint", "is_empty", "contains",
+                "constraints", "congruences", "equals", "affine_image"}
+ShapeDriver(ok) == IF Shape = "prod" THEN RE(ProdDrivers) ELSE IF Pset THEN RE(PsetDrivers) ELSE IF RE(1..2) = 1 /\ "min_constraints" \in ok THEN "min_constraints" ELSE RE(ok)
 OpOK(op) == IF op \in CtorOps THEN TRUE ELSE AliveS # {}
 (* Recipe mode (state x operation coverage, in the style of one test per transition): slot 1 and slot 2 are built with the
    same dimension and topology, then nd in 0..3 state-driver calls move slot 1's lazy representation, then ONE target
@@ -110,8 +113,8 @@ RecipeOp == LET L == Len(prog) IN
                                   ELSE IF (L - 1) % 3 = 0 THEN "copy_from"
                                   ELSE IF (L - 1) % 3 = 1 THEN RE(IF GrowOps = {} THEN {"refine_with_constraint"} ELSE GrowOps)
                                   ELSE RE(WidOps \cap OpSet))
-            ELSE IF L = 0 THEN RE({"from_cs", "from_gs", "from_cs"})
-            ELSE IF L = 1 THEN RE({"from_cs", "from_gs", "new"})
+            ELSE IF L = 0 THEN (IF Shape = "prod" THEN RE({"from_cs", "from_cgs", "from_cgs"}) ELSE RE({"from_cs", "from_gs", "from_cs"}))
+            ELSE IF L = 1 THEN (IF Shape = "prod" THEN RE({"from_cs", "from_cgs", "new"}) ELSE RE({"from_cs", "from_gs", "new"}))
             ELSE IF L < 2 + nd THEN (IF rk = "copy" /\ RE(1..4) = 1 /\ Shape = "poly" THEN "H79_widening" ELSE IF Shape = "poly" THEN RE(DriverOps) ELSE ShapeDriver(ShapeDrivers))
             ELSE IF rk = "op" THEN (IF L = 2 + nd THEN RE(RecipeTargets) ELSE IF L = 3 + nd THEN "min_constraints" ELSE IF Shape = "poly" THEN "min_generators" ELSE "is_empty")
             ELSE IF L = 2 + nd THEN RE({"assign", "assign", "copy_from", "swap"})
@@ -152,7 +155,7 @@ Args ==
                         !.gs = (IF ill THEN <<>> ELSE <<[k |-> "point", v |-> Mat(<<1>> \o [i \in 1..n |-> anchor[s][i]])]>>) \o
                                RandSeq(cnt - 1, LAMBDA i : IF n = 0 THEN [k |-> "point", v |-> <<1>>] ELSE GenOf(IF ill THEN {"point", "cpoint", "ray", "line"} ELSE GenKinds(t), anchor[s], n))])
                 \/ cur = "from_cgs" /\ n > 0 /\ Emit([D0 EXCEPT !.op = cur, !.dst = s, !.n = n, !.topo = t, !.mod = RE(1..3),
-                        !.cs = RandSeq((cnt % 2) + 1, LAMBDA i : [k |-> IF ill THEN "cg" ELSE "eq", v |-> Friendly(anchor[s], n, "eq")])])
+                        !.cs = RandSeq((cnt % 2) + 1, LAMBDA i : [k |-> IF ill \/ (Shape = "prod" /\ RE(1..3) <= 2) THEN "cg" ELSE "eq", v |-> Friendly(anchor[s], n, "eq")])])
              /\ IF ill /\ cur \in {"from_cgs", "from_cs", "from_gs"} THEN Keep ELSE SetDim(s, n, t)
      \/ /\ cur \in UnObs \cup UnMut
         /\ \E s \in {s0} : Emit([D0 EXCEPT !.op = cur, !.dst = s, !.n = dim[s], !.topo = topo[s]]) /\ Keep
